@@ -6,6 +6,8 @@ Driver for C08.  Protocol (one case):
   case <n>
   task <interval_ns> <priority> <prog...>              (declaration order)
   prog <p> <stmt...>            T | S:<var>:<value> | C:<dst>:<src> | X:<activation>:<0 div|1 idx>
+  initdiv <0|1 per program>     the program declares `gain : DINT := 100 / divisor` (global 9, RETAIN)
+  fb <f> <owner program> <stmt...>   task-associated FB instance (unit 100+f); taskfb <task> <f...>
   bind <var> <addr> <bool|byte|word|dword|lword|sint>  (the runtime's binding list, in order)
   drv <read-fail calls|-> <write-fail calls|->         (one line per logging driver)
   retain <store-fail calls|-|none>
@@ -123,7 +125,7 @@ def showEv : Ev → Option String
 
 def showProg : Ev → Option String
   | .prog _ 0 => none
-  | .prog p n => some s!"{p}:{n}"
+  | .prog u n => some (if u ≥ 100 then s!"f{u - 100}:{n}" else s!"{u}:{n}")
   | _ => none
 
 structure St where
@@ -133,6 +135,10 @@ structure St where
   drivers : List DrvScript := []
   retain : Option (List Nat) := none
   expired : List Int := []
+  initDiv : List Bool := []
+  fbs : List (List Stmt) := []
+  fbOwner : List Nat := []
+  taskFbs : List (Nat × List Nat) := []
   vars : List Int := []
   cfg : Option Cfg := none
   rs : Option (RState CStore CEnv) := none
@@ -149,7 +155,7 @@ def observe (cfg : Cfg) (r : PRes CStore CEnv) (isCycle : Bool) (refused : Bool)
     s!"f={if s.faulted then 1 else 0} lf={match s.lastFault with | some e => showErr e | none => "-"} " ++
     s!"st={s.store.steps} pr={dash (r.evs.filterMap showProg)} in={showHex s.io.inputs} " ++
     s!"out={showHex s.io.outputs} mem={showHex s.io.memory} sr={dash sr} cc={s.cycles} now={s.now} " ++
-    s!"gv={showInts s.store.vars} ns={showNats s.store.ns}"
+    s!"gv={showInts s.store.vars} ns={showNats s.store.ns} fn={showNats s.store.fns}"
   if isCycle then base ++ s!" ch={if refused then 0 else 1}" else base
 
 def doOp (st : St) (op : Op) : St × Option String :=
@@ -191,6 +197,21 @@ def stepLine (st : St) (line : String) : St × Option String :=
     match parseCsv? f with
     | some f => ({ st with retain := some f }, none)
     | none => (st, some "bad-op")
+  | "initdiv" :: fs =>
+    match parseBools? fs with
+    | some fs => ({ st with initDiv := fs }, none)
+    | none => (st, some "bad-op")
+  | "fb" :: f :: owner :: body =>
+    match f.toNat?, owner.toNat?, (if body = ["-"] then some [] else body.mapM parseStmt?) with
+    | some f, some owner, some body =>
+      if f = st.fbs.length then
+        ({ st with fbs := st.fbs ++ [body], fbOwner := st.fbOwner ++ [owner] }, none)
+      else (st, some "bad-op")
+    | _, _, _ => (st, some "bad-op")
+  | "taskfb" :: t :: fs =>
+    match t.toNat?, parseNats? fs with
+    | some t, some fs => ({ st with taskFbs := st.taskFbs ++ [(t, fs)] }, none)
+    | _, _ => (st, some "bad-op")
   | ["expired", f] =>
     match (if f = "-" then some [] else (f.splitOn ",").mapM (·.toInt?)) with
     | some f => ({ st with expired := f }, none)
@@ -203,7 +224,12 @@ def stepLine (st : St) (line : String) : St × Option String :=
     match t0.toInt?, parseHex? i, parseHex? o, parseHex? m with
     | some t0, some i, some o, some m =>
       let cfg : Cfg := { tasks := st.tasks, progs := st.progs, bindings := st.bindings, drivers := st.drivers,
-                         initVars := st.vars, retain := st.retain, expiredAt := st.expired }
+                         initVars := st.vars, retain := st.retain, expiredAt := st.expired,
+                         initDiv := st.initDiv, fbs := st.fbs, fbOwner := st.fbOwner,
+                         taskFbs := (List.range st.tasks.length).map fun t =>
+                           match st.taskFbs.find? (fun p => p.1 == t) with
+                           | some p => p.2
+                           | none => [] }
       let io : Io := { inputs := i, outputs := o, memory := m, hier := [] }
       ({ st with cfg := some cfg, rs := some (Conc.initState cfg io t0) }, none)
     | _, _, _, _ => (st, some "bad-op")
@@ -246,10 +272,10 @@ def stepLine (st : St) (line : String) : St × Option String :=
   | ["cycle"] => doOp st .cycle
   | ["watchdog"] => doOp st .watchdog
   | ["simfault"] => doOp st .simFault
-  | ["restart", m, fresh] =>
-    -- `fresh` = the restart re-created the program instances (observed by the harness; C09's subject)
+  | "restart" :: m :: fresh =>
+    -- `fresh` = per program: the restart gives it a new instance (observed by the harness; C09's subject)
     match (if m = "warm" then some RestartMode.warm else if m = "cold" then some .cold else none),
-          parseBool? fresh, st.rs with
+          parseBools? fresh, st.rs with
     | some m, some fresh, some rs =>
       doOp { st with rs := some { rs with store := { rs.store with idsChange := fresh } } } (.restart m)
     | _, _, _ => (st, some "bad-op")
